@@ -48,7 +48,7 @@ CLAIMS = [
         "design_ref": "DESIGN.md 6/C02, 12",
         "note": "Trusted: Lean kernel; K2 harness/driver/reference-map oracle; helper threads are modelled at the granularity of whole rehash_lock "
                 "calls (their bodies touch disjoint memory; rebuilds with helper threads are compared by contents only, their layout is timing dependent); "
-                "stripe limits are lowered through the hook (the real kMaxNumLocks=65536 appears in the arithmetic theorems and K1, not in K2 streams); "
+                "most streams lower the stripe limit through the hook; one stream per run (three in the thorough tier) uses the shipped kMaxNumLocks=65536 on a 2^16-bucket table that doubles with deferred migration; "
                 "C++ object model, allocator and std library are modelled, not verified.",
     },
     {
